@@ -377,6 +377,7 @@ type Contract struct {
 	UseHooks  []string
 	Params    []string // extern param names
 	Results   []string // extern / override result names
+	Callbacks []string // extern: parameters that are functions the callee calls (any number of times)
 	Abstract  []string // statements to abstract: "stmt <ordinal>"
 	NoBody    bool     // contract is trusted, body not verified (listed as assumption)
 	Reason    string
@@ -734,6 +735,9 @@ func (cs *ContractSet) parseContractFile(path, pkgPath string) error {
 				cur.Det = append(cur.Det, d)
 			case "writes":
 				cur.Writes = append(cur.Writes, fieldsComma(rest)...)
+			case "callback":
+				// callback <param>: the function passed for <param> is called any number of times
+				cur.Callbacks = append(cur.Callbacks, fieldsComma(rest)...)
 			case "must_read":
 				// must_read <pkg.Type>: F1, F2 -- each field carries meaning: a translator must look at it
 				i := strings.Index(rest, ":")
